@@ -23,6 +23,7 @@ def main():
     ap.add_argument('--verif', required=True)
     ap.add_argument('--only-breaking', action='store_true')
     ap.add_argument('--only-harmless', action='store_true')
+    ap.add_argument('--ids', default=None, help='comma-separated seeded ids: only these')
     ap.add_argument('--note', default='replayed after the machinery was corrected')
     a = ap.parse_args()
     bad, skipped, ok = [], [], 0
@@ -36,6 +37,8 @@ def main():
             if (a.only_breaking and harmless) or (a.only_harmless and not harmless):
                 continue
             sid = os.path.basename(d)
+            if a.ids and sid not in a.ids.split(','):
+                continue
             sh(['git', 'checkout', '--', '.'], cwd=a.wt)
             sh(['git', 'clean', '-fdq'], cwd=a.wt)
             rc, out = sh(['git', 'apply', patch], cwd=a.wt)
@@ -45,7 +48,11 @@ def main():
                 skipped.append(sid)
                 print('%s: patch does not apply to the current tree (skipped)' % sid, flush=True)
                 continue
-            checks = list((meta.get('checks_run') or {pid: None}).keys()) or [pid]
+            # every check that was ever run against this change (the property's own, and the check that owns the clause when another one does)
+            checks = list((meta.get('checks_run') or {}).keys())
+            for rr in meta.get('reruns') or []:
+                checks += [c for c in (rr.get('checks') or {}) if c not in checks]
+            checks = checks or [pid]
             res = {}
             try:
                 for c in checks:
